@@ -694,6 +694,8 @@ class Runner:
             except PROTO_EXC as e:
                 self.proto_exc.append((ep.side, type(e).__name__, "cancel"))
                 res = None
+            except Exception as e:  # noqa: BLE001
+                raise InternalError(ep.side, e) from e
             self.w.log.add("action", ep.side, what="cancel", res=res, wrong=bool(act[2:] and act[2] == "wrong"))
         elif kind == "tick":
             self.advance_clock()
